@@ -8,7 +8,7 @@ CLAIMS = {
  'C07': dict(level='model_checking', design='5 C07, 4.1',
    technique='TLC exhaustive model checking of the DKG network spec (DKGNet.tla) + TLC-simulated and randomised behaviours replayed on the real objects + TLC trace validation of the real logs (DKGTrace.tla)',
    text='Exhaustive TLC exploration of a round-synchronous network of Feldman-VSS-Qual / Joint-Feldman participants (every delivery order, Byzantine scripts within a budget) checks Agreement and KeysConsistent on the specification; the specification is bound to the code by replaying TLC behaviours and seeded randomised Byzantine runs on real DKG objects, judging agreement / key consistency on the real End() outputs, and validating every real log against the specification with TLC.',
-   note='Bounded: n=3 exhaustively (n=4 thorough), n<=7 sampled; Byzantine grammar and round-synchrony as modelled; field arithmetic abstracted by polynomial names, concretised through real dealer objects; threshold API used as the degree-t consistency oracle.'),
+   note='Bounded: n=3 exhaustively (n=4 thorough), n<=7 sampled; Byzantine grammar and round-synchrony as modelled; field arithmetic abstracted by polynomial names, concretised through real dealer objects; threshold API used as the degree-t consistency oracle on every successful run, reference G2 arithmetic (shares on one degree-t polynomial, private share x generator) on one in four.'),
  'C08': dict(level='model_checking', design='5 C08, 4.1',
    technique='TLC exhaustive model checking (DKGNet.tla, FVSS.tla) + replay of TLC-enumerated histories and randomised Byzantine runs on the real objects + TLC trace validation',
    text='NoHonestBlamed, HonestDealerQualified, BadDealerDisqualified (with an oracle computed from the message history only) are checked by TLC on the network specification, and FVSS.tla enumerates every delivery history of plain Feldman VSS; all enumerated histories and thousands of network behaviours are executed on the real objects where the same predicates are evaluated on the real callbacks and End() classes.',
@@ -17,16 +17,16 @@ CLAIMS = {
  'C10': dict(level='model_checking', design='5 C10, 4.1',
    technique='TLC enumeration of all API call sequences of the DKG state-machine spec (DKGApi.tla), each replayed on a real instance with the prescribed result classes; metamorphic non-interference replay',
    text='DKGApi.tla states the documented state machine (phase, timeouts taken, handler bodies of DKGNode.tla) and TLC checks its rules as invariants while enumerating every call sequence up to a length bound behind forced prefixes; every sequence is executed on a real instance of each protocol and role, the class of every call and Running() must be the prescribed ones, and the sequence with its rejected calls removed must be observationally identical.',
-   note='n=3, t=1, reduced alphabet of 17 calls, exhaustive to length 3 (4 thorough) behind 5 forced prefixes, longer sequences sampled; reuse after End excluded as the property says.'),
+   note='n=3, t=1, reduced alphabet of 21 calls (incl. Start with a short seed), exhaustive to length 3 (4 thorough) behind 5 forced prefixes, longer sequences sampled; reuse after End excluded as the property says.'),
 
  'C01': dict(level='model_checking', design='5 C01, 4.5',
    technique='TLC check of the staged Verify pipeline against its definition over the symbolic pairing algebra (BLSVerify.tla) + every enumerated class concretised with reference arithmetic and executed on the real Verify/Sign',
-   text='The acceptance set of Verify is decided on the model (procedure = definition for every key form x hasher x signature class, negative control: membership check dropped) and every terminal class combination is built with independent curve arithmetic from the library hash point and run on the real code, the model verdict being the oracle; plus all single-bit flips and lengths 0..200.',
-   note='H(m) comes from the library (signature under sk=1): a hash-to-curve defect consistent between Sign and Verify is not visible; classes are structured, not all 2^384 strings.'),
+   text='The acceptance set of Verify is decided on the model (procedure = definition for every key form x hasher x signature class, negative control: membership check dropped) and every terminal class combination is built with independent curve arithmetic from the REFERENCE hash point (own KMAC128 expander + RFC 9380 SSWU / isogeny / cofactor clearing in math/big, which the signature the library makes under sk = 1 must equal) and run on the real code under every key-object origin, the model verdict being the oracle; plus all single-bit flips, lengths 0..200 and crafted expander outputs at the edges of hash_to_field / the SSWU map.',
+   note='Classes are structured, not all 2^384 strings; the pairing itself has no independent reference (equalities hold or fail by construction of the inputs); the isogeny coefficient table is extracted from the vendored BLST source and validated by on-curve / additivity checks and the RFC 9380 vectors.'),
  'C02': dict(level='model_checking', design='5 C02, 4.5',
    technique='TLC check of both groupings with their Go/C bookkeeping, for every input list and every map iteration order, against the pairing-product definition (BLSAggVerify.tla) + every enumerated input executed on the real functions',
    text='BLSAggVerify.tla models the two maps, the grouping choice, the flattening and the offset-driven C loops and checks verdict = definition for all lists up to the bound, all signature classes and all iteration orders; each case is concretised (distinct objects of equal points, cancelling keys, identity) and run on the real VerifyBLSSignatureManyMessages / OneMessage in two orders.',
-   note='Lists up to length 3 (4 thorough) exhaustively, 7..33 groups sampled; H(m) from the library.'),
+   note='Lists up to length 3 (4 thorough) exhaustively, 7..33 groups sampled; H(m) from the reference hash-to-curve.'),
  'C03': dict(level='model_checking', design='5 C03, 4.5',
    technique='TLC check of pre-marking, tree build/walk and result merge against per-index verification for every class assignment (BLSBatch.tla, negative controls: constant coefficients, wrong split) + replay on the real batch verification',
    text='Every assignment of 9 entry classes to n<=5 positions (6 classes to n<=7 thorough) is checked on the model and executed on the real code with concretised cancelling pairs / swaps / rotations, identity keys, malformed, short and non-G1 signatures; each batch is compared with the model and with per-index real Verify.',
@@ -37,7 +37,7 @@ CLAIMS = {
    note='Sequences up to length 4 (5 thorough); one message per case.'),
  'C05': dict(level='model_checking', design='5 C05, 4.5',
    technique='TLC check of each decoder as a staged decision tree against the canonical acceptance set (Serialization.tla) + every class concretised with reference encoders and run through the real decoders and encoders',
-   text='Acceptance = canonical encodings only is checked on the model for every (decoder, length, flag bits, coordinate/scalar class) and on the real decoders with re-encoding, plus every single-bit flip / prefix byte of valid encodings judged by reference decompression and subgroup tests; the G2 coefficient-order deviation from the cited ZCash format is a known finding.',
+   text='Acceptance = canonical encodings only is checked on the model for every (decoder, length, flag bits, coordinate/scalar class) and on the real decoders with re-encoding, plus every single-bit flip / prefix byte of valid encodings judged by reference decompression and subgroup tests, and signature strings inside lists (compensating lengths, one bad entry at each position) in aggregation, batch verification and reconstruction; the G2 coefficient-order deviation from the cited ZCash format is a known finding.',
    note='Known finding C05:bls-g2:fp2-order (open, cannot be repaired without editing pinned tests).'),
  'C06': dict(level='model_checking', design='5 C06, 4.2',
    technique='TLC check of the transcribed Lagrange computation (limb batching, sign tracking) over F_257 for every enumerated index sequence (ThresholdMath.tla) and of the object invariants (ThresholdSigSeq.tla) + replay against reference interpolation in E1',
@@ -45,16 +45,16 @@ CLAIMS = {
    note='Field arithmetic reached only through replays; exhaustive for small n, structured beyond.'),
  'C13': dict(level='model_checking', design='5 C13, 4.4',
    technique='TLC check of the sponge write loop invariants for every write length and of hasher stream semantics (Hasher.tla), KMAC bytepad lengths (KmacPad.tla) + histories and complete length/split sweeps replayed against independent references',
-   text='Buffer invariants hold for every length 0..2*rate+1 at the real rates; every enumerated operation history is replayed on the real hashers of its class and compared with stdlib / SP 800-185 references; all lengths 0..4*rate x all 2-splits, fresh objects, dirty ComputeHash, one-shot helpers, KMAC key/customizer/output grids incl. block-boundary keys.',
+   text='Buffer invariants hold for every length 0..2*rate+1 at the real rates; every enumerated operation history is replayed on the real hashers of its class and compared with stdlib / SP 800-185 references; all lengths 0..4*rate x all 2-splits, fresh objects, dirty ComputeHash, one-shot helpers, KMAC key/customizer/output grids incl. block-boundary keys; long simulated behaviours on one object; misuse steps on finalised sponges followed by Reset / ComputeHash.',
    note='Keccak-f itself is trusted to the reference comparison; sponge objects not written after SumHash without Reset.'),
  'C14': dict(level='model_checking', design='5 C14, 4.3',
    technique='TLC enumeration of read / store-restore behaviours of the PRG stream machine with SameStream / RestoreResumes invariants (ChaChaPRG.tla) + replay against an independent RFC 8439 keystream',
-   text='All sequences over boundary read sizes, every store offset 0..200 (321 thorough) and crafted states around 2^32 bytes are enumerated with the prescribed keystream intervals and replayed on the real PRG with random seeds / customizers; derived UintN / permutation outputs are compared after restore.',
+   text='All sequences over boundary read sizes, every store offset 0..200 (321 thorough) and crafted states around 2^32 bytes are enumerated with the prescribed keystream intervals and replayed on the real PRG with random seeds / customizers; derived UintN / permutation outputs are compared after restore; long simulated behaviours with up to four generators.',
    note='Seeds and customizers sampled; block counter beyond 2^31 blocks not modelled.'),
  'C15': dict(level='model_checking', design='5 C15, 4.3',
    technique='TLC counting proof of one-attempt uniformity and Fisher-Yates bijections (Sampling.tla) + the real helpers run on every one-attempt tape through the hook random.NewVerifRand with preimage counting',
-   text='Exact uniformity is a counting statement checked by TLC for n<=64 (256 thorough) and measured on the real UintN for every n<=4096 (65536 thorough) over all chunks; permutations/samples: every draw sequence for populations <=5 (7) compared with the model outcome.',
-   note='Uniformity in the source bytes; larger n by structured and sampled tapes.'),
+   text='Exact uniformity is a counting statement checked by TLC for n<=64 (256 thorough) and measured on the real UintN for every n<=4096 (65536 thorough) over all chunks; permutations/samples: every draw sequence for populations <=5 (7) compared with the model outcome; algorithm-agnostic exact counting of outcomes over the trie of source bytes (depth 2 / 3) and a validity grid over (n, m) up to n = 4096.',
+   note='Uniformity in the source bytes; larger n by structured and sampled tapes; exact counting covers samplers that finish within 2 (3) source bytes.'),
  'C16': dict(level='model_checking', design='5 C16, 4.5',
    technique='TLC check of PoP soundness in the algebra and of KMAC key-string separation for every tag over a fragment alphabet (PoP.tla) + replay with an independently rebuilt PoP hasher',
    text='No application tag built from suite fragments makes the signature key equal the PoP key; every (key, candidate) class and every crafted tag is executed on BLSGeneratePOP / BLSVerifyPOP / Verify.',
@@ -62,27 +62,27 @@ CLAIMS = {
  'C17': dict(level='model_checking', design='5 C17, 4.5',
    technique='TLC check of the staged SPOCKVerify against the bilinear definition for all class combinations, swap symmetry (SPoCK.tla) + replay on the real functions',
    text='All 1600 (key form, proof class)^2 combinations are decided on the model (negative control: second membership check dropped) and executed on the real SPOCKVerify in both orders; Prove/VerifyAgainstData compared with Sign/Verify.',
-   note='H(m) from the library.'),
+   note='H(m) from the reference hash-to-curve.'),
  'C18': dict(level='model_checking', design='5 C18, 4.2',
-   technique='TLC linearisability checking of recorded concurrent histories of the real object against the sequential specification (ThresholdSigLin.tla), plus TLC check of the object invariants (ThresholdSigSeq.tla)',
-   text='Goroutines hammer one real inspector/participant; invocations and responses are stamped with one atomic counter; TLC searches a linearisation for every history (rejection = violation); a corrupted history must be rejected (negative control).',
+   technique='TLC linearisability checking of recorded concurrent histories of the real object against the sequential specification (ThresholdSigLin.tla), plus TLC check of the object invariants (ThresholdSigSeq.tla) and their refinement of an abstract share pool whose invariant Apalache proves inductive for every group size up to 12 (ThresholdSigAbs/Ind.tla)',
+   text='Goroutines hammer one real inspector/participant; invocations and responses are stamped with one atomic counter; TLC searches a linearisation for every history (rejection = violation); a corrupted history must be rejected (negative control). The sequential invariants are in addition proved inductive (Apalache, symbolic n <= 12 and t) on an abstraction that ThresholdSig.tla refines (TLC).',
    note='Only schedules the Go scheduler produces (with yields) are explored.'),
 
  'C09': dict(level='fault_enumeration', design='5 C09, 4.6',
    technique='TLC enumeration of the table of every exported function x argument classes and every DKG message x phase (APIMisuse.tla), each executed on the real library in child processes under recover(); behaviours of the other specifications re-executed for panics; ASan build in the thorough tier',
-   text='The specification is the fault table: 10111 calls with their documented outcome class (ok / typed rejection / documented exception). Every call is run on the real code; a recovered panic, a dying child, an untyped error where a typed one is documented, or an accepted invalid input is a violation. DKG network runs, FVSS histories, decoder and verification classes of the other properties are replayed for their panics.',
+   text='The specification is the fault table: about 29 000 calls (every exported function incl. both threshold constructors and the participant operations, key kinds, list shapes longer and shorter than the key list, forged PRG states, Start with every seed class followed by a run; every DKG message x phase x role) with their documented outcome class (ok / typed rejection / documented exception). Every call is run on the real code; a recovered panic, a dying child, an untyped error where a typed one is documented, or an accepted invalid input is a violation. DKG network runs, FVSS histories, decoder and verification classes of the other properties are replayed for their panics.',
    note='Inputs outside the class grid are not explored; C reads inside a Go slice capacity are invisible to recover() and ASan.'),
  'C11': dict(level='model_checking', design='5 C11, 4.6',
    technique='TLC check of the staged ECDSA verification against its definition over curve x hasher x signature classes (ECDSAVerify.tla) + every class concretised and judged by an independent verifier',
    text='All 380 class combinations are decided on the model and executed on the real Sign / Verify / SignatureFormatCheck for both curves with keys 1, n-1 and random; Sign outputs and every verdict are cross-checked with the ECDSA equation over math/big arithmetic and independently computed digests.',
    note='Signature classes are structured (ranges, twin, swaps, bit flips, lengths), not all 2^512 strings.'),
  'C12': dict(level='model_checking', design='5 C12, 4.6',
-   technique='TLC enumeration of seed lengths and key-object life cycles with cache invariants (KeyGen.tla) + replay against reference derivations (own HKDF, IETF BLS KeyGen) and reference scalar multiplication',
-   text='Every seed length 0..300 for the three algorithms (random and all-zero seeds) is checked for acceptance 32..256 and, when accepted, against the documented derivation; every life cycle (generated / decoded 1, n-1, small, leading-zero / aggregated; repeated PublicKey(), re-decoding) is replayed and the public key compared with scalar x generator computed by the reference.',
+   technique='TLC enumeration of seed lengths, key-object life cycles and pools of key objects under PublicKey / re-decode / aggregate actions with cache invariants (KeyGen.tla, KeyPool.tla) + replay against reference derivations (own HKDF, IETF BLS KeyGen) and reference scalar multiplication',
+   text='Every seed length 0..300 for the three algorithms (random and all-zero seeds) is checked for acceptance 32..256 and, when accepted, against the documented derivation; every life cycle (generated / decoded 1, n-1, small, leading-zero / aggregated; repeated PublicKey(), re-decoding) is replayed and the public key compared with scalar x generator computed by the reference; every behaviour of a pool of BLS key objects (caches filled or not, re-decoded copies, aggregation over lists with repeats) is executed and every object is then asked for its public key.',
    note='Seed contents sampled; BLS G2 encodings compared in the library coefficient order.'),
  'C19': dict(level='exploration', design='5 C19, 4.4',
    technique='recorded concurrent executions validated by TLC against the pure-function specification (PureOps.tla); data-race clause by the Go race detector on the same operation mixes',
-   text='Goroutines run mixes of the listed operations on shared keys and one shared KMAC hasher; TLC accepts the log only if every concurrent result equals the value computed alone and all argument buffers are unchanged; the recorder is also run under -race.',
+   text='Goroutines run mixes of the listed operations on shared keys (every internal form: generated, threshold key generation output, remainder of a removal; fresh objects in the concurrent phase) and fresh shared KMAC hashers; TLC accepts the log only if every concurrent result equals the value computed alone and all argument buffers are unchanged; the recorder is also run under -race.',
    note='Only schedules the Go scheduler produces; the race clause is decided by the race detector, not by TLC.'),
  'C20': dict(level='translation_validation', design='5 C20',
    technique='one transcript program and the specification-derived case sets built in four configurations; transcripts compared line by line, expectations re-checked per configuration',
